@@ -14,6 +14,9 @@ pub struct DwarfOpts {
     pub version: u16,
     /// one line sequence spanning all functions instead of one per function
     pub spanning: bool,
+    /// a richer DIE tree: base types between the subprograms, every other subprogram inside a namespace, parameters,
+    /// a lexical block (with its own low_pc / high_pc) and a variable inside each subprogram
+    pub nested: bool,
 }
 
 /// Append synthesized .debug_* sections: one subprogram per local function (low_pc = start of the function's
@@ -79,12 +82,42 @@ pub fn attach(bytes: &[u8], o: DwarfOpts) -> Option<Vec<u8>> {
         e.set(gimli::DW_AT_name, gw::AttributeValue::String(b"main.c".to_vec()));
         e.set(gimli::DW_AT_low_pc, gw::AttributeValue::Address(gw::Address::Constant(0)));
     }
-    for f in &locals {
-        let id = dwarf.unit.add(root, gimli::DW_TAG_subprogram);
+    let ns = if o.nested {
+        let id = dwarf.unit.add(root, gimli::DW_TAG_namespace);
+        dwarf.unit.get_mut(id).set(gimli::DW_AT_name, gw::AttributeValue::String(b"ns".to_vec()));
+        Some(id)
+    } else {
+        None
+    };
+    for (k, f) in locals.iter().enumerate() {
+        if o.nested && k % 2 == 1 {
+            let t = dwarf.unit.add(root, gimli::DW_TAG_base_type);
+            let e = dwarf.unit.get_mut(t);
+            e.set(gimli::DW_AT_name, gw::AttributeValue::String(format!("t{}", k).into_bytes()));
+            e.set(gimli::DW_AT_byte_size, gw::AttributeValue::Udata(4));
+        }
+        let parent = match ns {
+            Some(n) if k % 2 == 0 => n,
+            _ => root,
+        };
+        let id = dwarf.unit.add(parent, gimli::DW_TAG_subprogram);
         let e = dwarf.unit.get_mut(id);
         e.set(gimli::DW_AT_name, gw::AttributeValue::String(format!("f{}", f.idx).into_bytes()));
         e.set(gimli::DW_AT_low_pc, gw::AttributeValue::Address(gw::Address::Constant(f.entry_at as u64 - code)));
         e.set(gimli::DW_AT_high_pc, gw::AttributeValue::Udata((f.end_at - f.entry_at) as u64));
+        if o.nested {
+            let p = dwarf.unit.add(id, gimli::DW_TAG_formal_parameter);
+            dwarf.unit.get_mut(p).set(gimli::DW_AT_name, gw::AttributeValue::String(b"p".to_vec()));
+            if let (Some(first), Some(last)) = (f.ops.first(), f.ops.last()) {
+                // from the first instruction to the start of the last one (the function's final `end`)
+                let b = dwarf.unit.add(id, gimli::DW_TAG_lexical_block);
+                let e = dwarf.unit.get_mut(b);
+                e.set(gimli::DW_AT_low_pc, gw::AttributeValue::Address(gw::Address::Constant(first.at as u64 - code)));
+                e.set(gimli::DW_AT_high_pc, gw::AttributeValue::Udata((last.at - first.at) as u64));
+                let v = dwarf.unit.add(b, gimli::DW_TAG_variable);
+                dwarf.unit.get_mut(v).set(gimli::DW_AT_name, gw::AttributeValue::String(b"v".to_vec()));
+            }
+        }
     }
     let mut sections = gw::Sections::new(gw::EndianVec::new(LittleEndian));
     dwarf.write(&mut sections).ok()?;
